@@ -106,4 +106,11 @@ var props = []Prop{
 		Bounds:  "8 prefixes x 1 operation with a recording listener subscribed to everything: the 11 single-entity operation kinds with every legal argument, the 5 batch families incl. Q variants (events only at close/exhaustion), removal / retarget / Reset family, and no-op calls (Exchange/Add/Remove without components, Relations.Set to the current target); per event: type bits, Added/Removed masks, AddedIDs/RemovedIDs as sets, Old/NewRelation nil-ness and value, OldTarget, and what the world shows at delivery (lock state, liveness, Mask, target: after-state, or before-state for removals); exactly one event per changed entity as a multiset; 2 configurations (thorough 24)",
 		Outside: "order of events inside one batch call; more than one operation after installing the listener",
 	},
+	{
+		ID: "C17",
+		Harnesses: []H{{Pkg: "ecs", Fn: "HC17_DumpLoad"}, {Pkg: "ecs", Fn: "HC17_Refuse", W: 2}},
+		Conform: []H{{Pkg: "ecs", Fn: "HSmoke"}},
+		Bounds:  "source history: 3 or 5 creations followed by up to 2 (thorough 3) removals of symbolically chosen alive entities, each optionally followed by a re-creation (free-list depth 0..3, mixed generations); 6 triples of capacity increments (1..4) for source and the two receivers; receiver 1 = fresh world loaded at once (Alive of every issued handle, dump(loaded) == dump field by field incl. the Alive sequence); then the source is optionally mutated (removal / creation); receiver 2 = fresh or reset world loaded later from the same dump object (snapshot semantics); then a common suffix of 2 (thorough 3) creations/removals on all worlds with identical handles and Alive answers, final dumps equal (Alive as a set); refusal for worlds with entities, with recycled ids but no reset, locked; acceptance after Reset",
+		Outside: "the JSON clause (encoding/json is not encodable by the engine); dumps not produced by DumpEntities; more than 8 handles",
+	},
 }
